@@ -39,6 +39,8 @@ pub mod sample {
     }
 
     pub fn ternary<T: Rng>(rng: &mut T, parms: &EncryptionParameters, destination: &mut[u64]) {
+        #[cfg(feature = "verif")]
+        if crate::verif_hooks::scripted_ternary(parms, destination) { return; }
         let coeff_modulus = parms.coeff_modulus();
         let coeff_modulus_size = coeff_modulus.len();
         let coeff_count = parms.poly_modulus_degree();
@@ -85,6 +87,8 @@ pub mod sample {
     */
 
     pub fn centered_binomial<T: Rng>(rng: &mut T, parms: &EncryptionParameters, destination: &mut[u64]) {
+        #[cfg(feature = "verif")]
+        if crate::verif_hooks::scripted_error(parms, destination) { return; }
         let coeff_modulus = parms.coeff_modulus();
         let coeff_modulus_size = coeff_modulus.len();
         let coeff_count = parms.poly_modulus_degree();
